@@ -85,7 +85,8 @@ Definition next (s : st) (e : ev) : st :=
   | Reset t ty c => with_depth (with_last s t) c ty O
   end.
 
-Definition init : st := {| types := []; vals := []; live := []; dead := []; last := 0; depth := [] |}.
+(* the root container has the alias 0 and is never declared by SimGrid (Paje's convention): it is alive from the start *)
+Definition init : st := {| types := []; vals := []; live := [0]; dead := []; last := 0; depth := [] |}.
 
 Fixpoint paje_run (s : st) (tr : list ev) : bool :=
   match tr with [] => true | e :: r => (check s e =? 0) && paje_run (next s e) r end.
